@@ -5,6 +5,7 @@ A_ARITH = 'machine arithmetic is NOT treated as mathematical: every u64/usize op
 
 A_HANDLES = 'the map of open child-bucket handles (prelude/bucketcommit.rs): its iterators list every open child once, the handles form a finite tree (depth measure: recursion of is_dirty / rebalance / spill terminates), an open child has its entry in the parent tree (children_have_entries); Node::spill and merge_nodes are ASSUMED to touch the allocator only through TxFreelist::{allocate, free} (tree_frame) and not the bucket header / flags / journal'
 A_SERIAL = 'Page::{branch_elements_mut, leaf_elements_mut, slice} hand out `count` element headers / `size` bytes behind the 32-byte header prefix and leave the other header fields alone (raw-pointer casts, decl only; read-side twins pinned by Kani k1_element_slices / k1_payload_addressing); io::Write for &mut [u8] copies to the front, advances and fails only when the data does not fit (std documentation; rule R24); slice_at_mut is IndexMut'
+A_CELLFIN = 'unit markdel only: RefCell::fin(), the value a cell is left with when the RefMut taken by the function under contract dies (prelude/cell_fin.rs; sound where a function borrows each cell mutably at most once per call, which holds for mark_deleted); that delete_bucket calls mark_deleted on the removed handle is held by the bounded oracle cex_history_stale_handles_below_a_deleted_bucket, not by a contract'
 A_HASHSET = 'std HashSet<u64> / HashMap<u64,u64> per vstd (group_hash_axioms: u64 obeys the key model, RandomState builds valid hashers); `(a..b).collect()` into a HashSet is exactly the ids a..b (stub U24)'
 
 PROPS = {}
@@ -186,7 +187,7 @@ PROPS['C05'] = dict(
     bounded_quick=[('checker', 'stands in for TxInner::check when unit check is undecided (rewritten body): structurally damaged files must be rejected by DB::check()'), ('history', 'Node::spill and InnerBucket::merge_nodes / node (an Rc<RefCell<Node>> graph mutated through shared handles: outside both verifiers), the payload bytes Page::write_node copies (bounded Kani codec); Node::split / write / free_page / NodeData::merge, Page::write_node (layout arithmetic, never fails) and InnerBucket::{rebalance, spill, page_node} ARE under contract (units split, nodeio, writenode, bucketcommit, overlay)')],
     level='proof',
     composition='the accounting part of INV (pending pages below the high-water mark, not free, pending once; live pages not free) is preserved by begin/end reader and commit: Verus lemma L2 (contracts/lemmas.vtmpl) under assumptions A1/A2',
-    units=['freelist', 'commit', 'open', 'pagenode', 'lemmas', 'bucketops', 'nodeio', 'split', 'bucketcommit', 'check', 'writenode'],
+    units=['freelist', 'commit', 'open', 'pagenode', 'lemmas', 'bucketops', 'nodeio', 'split', 'bucketcommit', 'check', 'writenode', 'markdel'],
     kani_quick=['layout'],
     kani_thorough=['codec'],
     explanation='Page accounting, allocator and serialisation side (the tree-shape half is outside): the allocator never hands out a page that is pending, already allocated in this transaction or a header page, '
@@ -197,17 +198,17 @@ PROPS['C05'] = dict(
                 'in order, nothing lost or duplicated, for ANY fill threshold, and registers each piece as a fresh node without a page (unit split; the piece lemma lemma_pieces_concat); NodeData::size IS the serialised size '
                 '(element headers + payloads: the iterator fold is proved, no longer assumed), so the run Node::write asks for is long enough for what Page::write_node lays out; NodeData::merge leaves the union of both nodes in key order and empties the other; '
                 'Page::write_node lays the node out exactly as announced (header: kind and count; element k: child / kind, lengths, pos = element headers still to come + payloads before it; bytes laid out == NodeData::size; it never fails: unit writenode); TxInner::check, the database\'s own consistency check, is SOUND: Ok only if the pages reachable from the root bucket and the free-list page with their runs, plus the ids the free list names, are every page below the high-water mark exactly once, with per-page key order and known kinds, and it terminates without panicking (unit check); InnerBucket::spill rewrites every open child bucket that has changes and stores each such child\'s new header under its name exactly once before writing its own nodes, answers with the new root page and does not touch the insertion counter; rebalance / spill / is_dirty keep the allocator frame (unit bucketcommit); element headers and payloads '
-                'round-trip through the real pointer code inside the page run (K2, BOUNDED, thorough tier).',
+                'round-trip through the real pointer code inside the page run (K2, BOUNDED, thorough tier). Deleting a bucket marks the bucket AND every open bucket below it, at every depth, as deleted, so no handle taken earlier can work on the freed pages (E13, repaired: unit markdel proves InnerBucket::mark_deleted on its real recursive body over the cell model with fin()).',
     level_text='Unbounded proofs of the allocator / free-list / commit-publication obligations on the real code; bounded Kani harnesses (labelled, not counted) for the raw-pointer codec.',
     level_note='The nested-bucket double free named in the property text (E10, repaired) is now a step obligation of InnerBucket::delete_bucket (a nested root queued for freeing is not already freed by this transaction). NOT decided: that Node::spill / merge_nodes (assumed interface of unit bucketcommit) free each page at most once, key order across pages, separator bounds, '
                'reachability-exactly-once, and agreement of TxInner::check (a worklist graph traversal, not under contract). L3 composition on paper; fl_nodup is an assumption.',
-    assumptions=[A_TOOLS, A_ARITH, A_TREE, A_FILE, A_PAGEMUT, A_ELEMS, A_SEQ, A_HANDLES, A_SERIAL, A_HASHSET],
+    assumptions=[A_TOOLS, A_ARITH, A_TREE, A_FILE, A_PAGEMUT, A_ELEMS, A_SEQ, A_HANDLES, A_SERIAL, A_HASHSET, A_CELLFIN],
     not_covered=['duplicated or leaked pages caused by Node::spill / merge_nodes (bounded: cex/history.rs + the VERIFIED DB::check after every commit; reproductions e9, e11)', 'key order across pages and separator bounds (E11 lived here; bounded only: TxInner::check looks at each page on its own)', 'completeness of TxInner::check (that it accepts every well-formed file); its soundness is proved in unit check'],
 )
 PROPS['C01'] = dict(
     bounded_quick=[('history', 'Node::spill and InnerBucket::merge_nodes / node (an Rc<RefCell<Node>> graph mutated through shared handles: outside both verifiers), the payload bytes Page::write_node copies (bounded Kani codec); Node::split / write / free_page / NodeData::merge, Page::write_node (layout arithmetic, never fails) and InnerBucket::{rebalance, spill, page_node} ARE under contract (units split, nodeio, writenode, bucketcommit, overlay)'), ('cursor', 'Node::spill and InnerBucket::merge_nodes / node (an Rc<RefCell<Node>> graph mutated through shared handles: outside both verifiers), the payload bytes Page::write_node copies (bounded Kani codec); Node::split / write / free_page / NodeData::merge, Page::write_node (layout arithmetic, never fails) and InnerBucket::{rebalance, spill, page_node} ARE under contract (units split, nodeio, writenode, bucketcommit, overlay)')],
     level='other',
-    units=['pagenode', 'cursor', 'range', 'guards', 'bucketops', 'bytes', 'split', 'bucketcommit', 'overlay', 'data', 'writenode'],
+    units=['pagenode', 'cursor', 'range', 'guards', 'bucketops', 'bytes', 'split', 'bucketcommit', 'overlay', 'data', 'writenode', 'markdel'],
     kani_quick=['layout'],
     kani_thorough=['codec'],
     explanation='Leaf operations against the mathematical ordered map, for all sizes: Node::insert_data is map insert on a strictly ascending entry sequence (replace on equal key, insert at the sorted position otherwise, '
